@@ -77,6 +77,9 @@ MUTANTS = [
     ("float32 not recognised by FITSTableType", "AegeanTools/catalogs.py",
      "        elif isinstance(val, (float, np.float64, np.float32)):\n            types = \"E\"",
      "        elif isinstance(val, (float, np.float64)):\n            types = \"E\"", "C18-R7"),
+    ("reader takes the first column for every field",
+     "AegeanTools/catalogs.py",
+     "                val = row[param]", "                val = row[0]", "C18-R4"),
 ]
 TWINS = [
     ("double precision errors", "AegeanTools/catalogs.py",
@@ -288,6 +291,48 @@ def run(ctx):
               bool(setv) and all(norm(c.args[1]) in rvar for c in setv),
               "values must be stored under the column's own name",
               node=setv[0] if setv else rd.node)
+    # ... and the value comes from the row's column of that name
+    from .c08 import _resolve_local
+
+    def from_row(e, var, depth=0):
+        if depth > 4:
+            return False
+        if isinstance(e, ast.Subscript) and norm(e.slice) == var and \
+                isinstance(e.value, ast.Name):
+            return True
+        if isinstance(e, ast.Name):
+            defs_ = [d.value for d in walk_no_nested(rd.node)
+                     if isinstance(d, ast.Assign) and
+                     norm(d.targets[0]) == e.id]
+            # x = np.float64(x) style re-wrapping keeps the origin
+            def self_ref(d):
+                if isinstance(d, ast.Name):
+                    return d.id == e.id
+                if isinstance(d, ast.Call) and len(d.args) == 1 and \
+                        norm(d.func) in ("np.float64", "numpy.float64",
+                                         "float", "int", "str"):
+                    return self_ref(d.args[0])
+                if isinstance(d, ast.IfExp):
+                    return self_ref(d.body) and self_ref(d.orelse)
+                return False
+            defs_ = [d for d in defs_ if not self_ref(d)]
+            return bool(defs_) and all(from_row(d, var, depth + 1)
+                                       for d in defs_)
+        if isinstance(e, ast.Call) and len(e.args) == 1 and \
+                norm(e.func) in ("np.float64", "numpy.float64", "float",
+                                 "int", "str"):
+            return from_row(e.args[0], var, depth + 1)
+        if isinstance(e, ast.IfExp):
+            return from_row(e.body, var, depth + 1) and \
+                from_row(e.orelse, var, depth + 1)
+        return False
+    for c in setv:
+        ctx.check("C18-R4", rd, "value of %s comes from row[%s]" %
+                  (norm(c, 50), norm(c.args[1])),
+                  from_row(c.args[2], norm(c.args[1])),
+                  "the value stored for column `%s` is %s, not the row's "
+                  "entry of that column" % (norm(c.args[1]),
+                                            norm(c.args[2], 50)), node=c)
     # ---------------------------------------------------------------- R5
     ctx.rule("C18-R5", "FITS columns: string widths over the whole column, "
              "err_* forced to float ('E'/'D')")
